@@ -17,7 +17,18 @@ THEOREMS = ['PyDBML.C08.parse_outcome', 'PyDBML.C08.parseDoc_raises', 'PyDBML.C0
             'PyDBML.C08.dbml_raises_name_with_newline', 'PyDBML.C08.dbml_raises_inline_composite']
 MODULES = ['PyDBMLProofs.Hoare', 'PyDBMLProofs.Props.C08', 'PyDBMLProofs.Props.C08Render', 'PyDBMLProofs.Props.C08Dbml']
 
-SPECIAL = [
+_TWO = 'Table users {\n  id int [pk]\n}\nTable orders {\n  id int [pk]\n  user_id int\n}\n'
+# comments with format braces above / behind references of every form (round 11)
+BRACE_COMMENT_DOCS = [
+    _TWO + '// payload looks like {"user": 1}\nRef: orders.user_id > users.id\n',
+    _TWO + '// see {ticket} for the reason\nRef fk_orders_users {\n  orders.user_id > users.id [delete: cascade]\n}\n',
+    _TWO + '// join { table\nRef: orders.user_id <> users.id\n',
+    _TWO + 'Ref: orders.user_id < users.id // behind {c} }\n',
+    'Table users {\n  id int [pk]\n}\nTable orders {\n  id int [pk]\n  user_id int [ref: > users.id] // inline {0} {\n}\n',
+    '// table {t}\nTable t {\n  // column {c}\n  id int [note: \'{n}\']\n  indexes {\n    // index {i}\n    id [name: \'{x}\']\n  }\n}\n// enum {e}\nEnum e {\n  // item {i}\n  a [note: \'{}\']\n}\n',
+]
+
+SPECIAL = BRACE_COMMENT_DOCS + [
     '', '\n', '   ', '// only a comment', '/* block */', '/* unterminated', '﻿', '﻿Table t {\n id int\n}',
     '﻿﻿Table t {\n id int\n}', 'Table t {\n id int [note: \'   \']\n}', "Table t {\n id int\n Note: '''\n\n'''\n}",
     "Note n {\n '  '\n}", "Note n {\n ''\n}", 'Table t {\n id "a.b.c"\n}', 'Table t {\n id "a.b"\n}', 'Table t {\n id a.b\n}',
@@ -146,6 +157,20 @@ def gen_inputs(ctx):
             q = '"' + w + r2.choice(['{', '}', '{}', '{0}', '{c}', '{{']) + '"'
             b = _re.sub(r'(?<![\w"\'`#.:])' + w + r'(?![\w"\'`:(])', lambda m: q, b)
         jobs.append((b.replace('> ', r2.choice(['> ', '<> ', '<> ', '- '])), r2.random() < 0.3))
+    # comments with format braces at every place a comment is stored: above each element, trailing lines inside bodies
+    BRC = ['// payload looks like {"user": 1}', '// see {ticket}', '// join { table', '// } {c} {0} {{', '// {}']
+    for k in range(60 if quick else 1000):
+        r2 = random.Random(f'{ctx.seed}:c08c:{k}')
+        b = r2.choice(base)
+        out = []
+        for ln in b.split('\n'):
+            st = ln.strip()
+            if _re.match(r'(?i)(table|ref|enum|tablegroup|project)\b', st) and r2.random() < 0.7:
+                out.append(r2.choice(BRC))
+            if st and _re.search(r'[\w\]"]$', st) and not st.startswith(('//', '/*', "'")) and "'''" not in st and r2.random() < 0.3:
+                ln = ln + ' ' + r2.choice(BRC)
+            out.append(ln)
+        jobs.append(('\n'.join(out), r2.random() < 0.3))
     # value slots: short strings over the characters numbers, words and quotes are made of, written where the grammar
     # expects a VALUE (a default, type arguments, a colour, an index type): whatever they are, the outcome is a database
     # or a parse error
